@@ -13,6 +13,9 @@ SPECIAL = {
     '$card': A1(I),           # dict: number of keys
     '$ord': A2(I),            # dict: insertion stamp of a key
     '$clock': A1(I),          # dict: next insertion stamp
+    '$dq': A2(I),             # deque: element (a reference) at absolute index
+    '$dqh': A1(I),            # deque: absolute index of the head
+    '$dqt': A1(I),            # deque: absolute index one past the tail
 }
 
 _cls_codes = {}
